@@ -149,11 +149,24 @@ type mDeep struct {
 // field names that differ only by case
 type mCase struct {
 	Count int
-	Total int    `ion:"count"`
+	Total int `ion:"count"`
 	NAME  string
 	Name  string `ion:"name"`
 	Id    int    `ion:"ID"`
 	ID    int    `ion:"id"`
+}
+
+// collections of structs whose fields may be omitted: an element decoded after another must not inherit from it
+type mOmit struct {
+	X int `ion:",omitempty"`
+	Y int
+	L []int  `ion:",omitempty"`
+	S string `ion:"s,omitempty"`
+}
+type mMapStruct struct {
+	M  map[string]mOmit
+	SL []mOmit
+	P  map[string]*mOmit
 }
 
 var goTypes = []struct {
@@ -176,7 +189,7 @@ var goTypes = []struct {
 	{"embed", reflect.TypeOf(mEmbed{})}, {"embedptr", reflect.TypeOf(mEmbedPtr{})}, {"special", reflect.TypeOf(mSpecial{})},
 	{"annint", reflect.TypeOf(mAnnInt{})}, {"annstruct", reflect.TypeOf(mAnnStruct{})}, {"annlist", reflect.TypeOf(mAnnList{})},
 	{"nested", reflect.TypeOf(mNested{})}, {"token", reflect.TypeOf(ion.SymbolToken{})},
-	{"deep", reflect.TypeOf(mDeep{})}, {"case", reflect.TypeOf(mCase{})},
+	{"deep", reflect.TypeOf(mDeep{})}, {"case", reflect.TypeOf(mCase{})}, {"mapstruct", reflect.TypeOf(mMapStruct{})},
 }
 
 func goTypeByName(n string) reflect.Type {
